@@ -739,6 +739,95 @@ Definition gossip_data (p : PRS) (has_header : bool) (ours : option BitArray) : 
     | Ok d => ((if pick_some d then PickSome else PickNone), d)
     end.
 
+(** ** HeightVoteSet (consensus/types/height_vote_set.go): which rounds have vote sets
+
+    [hv_round] is hvs.round (uint32), [hv_rounds] the keys of roundVoteSets, [hv_catchup] the
+    rounds each peer was allowed to open beyond hvs.round (peerCatchupRounds). *)
+
+Definition two32 : Z := 4294967296.
+Record HVS := { hv_round : Z; hv_rounds : list Z; hv_catchup : list (Z * list Z) }.
+
+Definition zmem (x : Z) (l : list Z) : bool := existsb (Z.eqb x) l.
+
+Fixpoint alookup (k : Z) (l : list (Z * list Z)) : list Z :=
+  match l with [] => [] | (a, b) :: t => if a =? k then b else alookup k t end.
+Fixpoint aset (k : Z) (v : list Z) (l : list (Z * list Z)) : list (Z * list Z) :=
+  match l with
+  | [] => [(k, v)]
+  | (a, b) :: t => if a =? k then (a, v) :: t else (a, b) :: aset k v t
+  end.
+
+(** NewHeightVoteSet: addRound(1); round = 1 *)
+Definition hvs_new : HVS := {| hv_round := 1; hv_rounds := [1]; hv_catchup := [] |}.
+
+(** addRound: PanicSanity("addRound() for an existing round") *)
+Definition hvs_add_round (h : HVS) (r : Z) : res HVS :=
+  if zmem r (hv_rounds h) then RCrash
+  else Ok {| hv_round := hv_round h; hv_rounds := r :: hv_rounds h; hv_catchup := hv_catchup h |}.
+
+(** the loop of SetRound: [n] iterations from [r]; a round a peer has opened already is skipped *)
+Fixpoint hvs_fill (n : nat) (r : Z) (h : HVS) : res HVS :=
+  match n with
+  | O => Ok h
+  | S k => if zmem r (hv_rounds h) then hvs_fill k (r + 1) h
+           else do h' <- hvs_add_round h r; hvs_fill k (r + 1) h'
+  end.
+
+(** SetRound(round).  newRound := hvs.round - 1 in uint32.  With round = MaxUint32 the loop
+    condition [r <= round] never fails (r wraps): an endless, allocating loop — [RAlloc] *)
+Definition hvs_set_round (h : HVS) (round : Z) : res HVS :=
+  let nr := (hv_round h - 1) mod two32 in
+  if negb (hv_round h =? 1) && (round <? nr) then RCrash
+  else if round =? two32 - 1 then RAlloc 0
+  else do h' <- hvs_fill (Z.to_nat (round - nr + 1)) nr h;
+       Ok {| hv_round := round; hv_rounds := hv_rounds h'; hv_catchup := hv_catchup h' |}.
+
+(** AddVote(vote, peerID) up to the point where the vote reaches its VoteSet *)
+Inductive hv_class := HVVoteSet | HVErrType | HVUnwanted.
+Definition hvs_add_vote (h : HVS) (t r peer : Z) : res (HVS * hv_class) :=
+  if negb (type_valid t) then Ok (h, HVErrType)
+  else if zmem r (hv_rounds h) then Ok (h, HVVoteSet)
+  else
+    let rndz := alookup peer (hv_catchup h) in
+    if len rndz <? 2 then
+      do h' <- hvs_add_round h r;
+      Ok ({| hv_round := hv_round h'; hv_rounds := hv_rounds h'; hv_catchup := aset peer (rndz ++ [r]) (hv_catchup h') |}, HVVoteSet)
+    else Ok (h, HVUnwanted).
+
+Inductive hvs_op := HAdd (t r peer : Z) | HSet (round : Z).
+Definition hvs_step (h : HVS) (o : hvs_op) : res HVS :=
+  match o with
+  | HAdd t r peer => do x <- hvs_add_vote h t r peer; Ok (fst x)
+  | HSet round => hvs_set_round h round
+  end.
+
+(** the node's use of it (consensus/state.go): updateToState makes a new set for the new height;
+    enterNewRound(height, round) — only for round >= cs.Round — calls SetRound(round + 1); a vote
+    of the node's height taken from the peer queue goes to AddVote with the sender's id *)
+Record nodehv := { nh_height : Z; nh_hvs : HVS }.
+
+(** what is seen of the node after one of its steps: its height and hvs.round.  A changed
+    hvs.round means SetRound ran with that argument (several calls in one step end in the same
+    rounds as the last one alone: each fills from the previous hvs.round - 1) *)
+Definition node_observe (n : nodehv) (h hr : Z) : res nodehv :=
+  let b := if nh_height n =? h then n else {| nh_height := h; nh_hvs := hvs_new |} in
+  if hv_round (nh_hvs b) =? hr then Ok b
+  else do hv <- hvs_set_round (nh_hvs b) hr; Ok {| nh_height := h; nh_hvs := hv |}.
+
+Definition node_vote (n : nodehv) (t h r peer : Z) : res nodehv :=
+  if nh_height n =? h then
+    do x <- hvs_add_vote (nh_hvs n) t r peer;
+    Ok {| nh_height := nh_height n; nh_hvs := fst x |}
+  else Ok n.
+
+(** a delivery on the vote channel that Receive queued for the consensus routine *)
+Definition node_deliver (running has_ps : bool) (ch : Z) (w : wire) (peer : Z) (n : nodehv) : res nodehv :=
+  if negb running || negb has_ps then Ok n
+  else match from_proto w with
+       | Some (MVote t h r _) => if ch =? chan_vote then node_vote n t h r peer else Ok n
+       | _ => Ok n
+       end.
+
 (** ** Block-sync reactor: Receive with its lock events (structure-level model) *)
 
 Inductive bc_msg :=
@@ -800,12 +889,37 @@ Inductive ev_msg := ERaw | EList (n : Z) (dec_ok : bool).
 Definition ev_receive (m : ev_msg) : shallow :=
   match m with ERaw => ShRej | EList _ false => ShRej | EList _ true => ShRun end.
 
-Inductive pex_msg := PRaw | PReq | PAddrs (n bad : Z) (solicited : bool).
+(** lib/p2p/netaddress.go NetAddressFromProto: an address on the wire is (does the IP string parse,
+    the uint32 port); the port must fit a uint16: [pb.Port >= 1<<16] is refused *)
+Definition max_port : Z := 65535.
+Definition port_ok (p : Z) : bool := p <? 65536.
+Definition addr_from_proto (a : bool * Z) : option Z :=
+  if negb (fst a) then None else if port_ok (snd a) then Some (snd a mod 65536) else None.
+(** ToProto: uint32(na.Port) of a uint16 port; the IP prints to a string that parses *)
+Definition addr_to_proto (port : Z) : bool * Z := (true, port).
+
+(** NetAddressesFromProto: the first address that does not convert fails the whole list *)
+Fixpoint addrs_from_proto (l : list (bool * Z)) : option (list Z) :=
+  match l with
+  | [] => Some []
+  | a :: t => match addr_from_proto a with
+              | None => None
+              | Some p => match addrs_from_proto t with None => None | Some r => Some (p :: r) end
+              end
+  end.
+
+(** pex Receive: an address list is added to the book (errors of the book are logged only) when it
+    converts and was asked for; otherwise the sender is stopped.  PexRequest: pacing is wall clock *)
+Inductive pex_msg := PRaw | PReq | PAddrs (addrs : list (bool * Z)) (solicited : bool).
 Definition pex_receive (m : pex_msg) : shallow :=
   match m with
   | PRaw => ShRej
   | PReq => ShRun
-  | PAddrs n bad sol => if negb (bad =? 0) || negb sol then ShRej else ShRun
+  | PAddrs l sol =>
+    match addrs_from_proto l with
+    | None => ShRej
+    | Some _ => if sol then ShAcc else ShRej
+    end
   end.
 
 (** ** Connection framing (recvRoutine / recvPacketMsg) *)
